@@ -62,24 +62,26 @@ PARTIAL = ["tree level, error bound: proved are (i) one projector insertion at t
            "[1, max_bond_dim] is proved (keptDim_bounds); for recursive_truncation it is lifted to EVERY bond of the "
            "structural result without further hypothesis (recursive_truncation_bond_axes: the bond above the non-root node "
            "c has exactly the dimension chosen for c; recursive_truncation_bonds_le; truncOrder_perm: every non-root node "
-           "is visited exactly once); svd_truncation: svd_truncation_bonds_le_partial - cut bonds stay <= max_bond_dim and "
-           "no bond grows GIVEN, per event, that the model's centreMove / contractSplit change only their own bond "
-           "(BondLocal: decided by evaluation on a concrete sweep in Lean, by the oracle on every run) and that a QR move "
-           "does not exceed the dimension of the bond it crosses; the sweep ORDER is proved on the C17 tree model "
-           "(svd_sweep_cuts_every_edge: linearise()[:-1] paired with the parents is a duplicate-free list that is a "
-           "permutation of the (child, parent) edges - every bond is cut exactly once; svd_sweep_events_along_edges: the "
-           "moves along path_from_to and the cuts all run along tree edges), hence svd_truncation_sweep_bonds_le_partial: "
-           "after the modelled sweep EVERY bond is <= max_bond_dim - still GIVEN BondLocal per event (only the pull-back "
-           "lemmas bl37_contract_pull / bl37_split_pull / bl37_contract_split_pull of contract_nodes / split_nodes are "
-           "proved for all networks)",
+           "is visited exactly once); svd_truncation: PROVED for every well-formed network (svd_truncation_bonds_le, "
+           "svd_truncation_all_bonds_le): centreMove / contractSplit change only their own bond "
+           "(centre_move_bond_local, contract_split_bond_local: every other virtual leg keeps neighbour, label and "
+           "dimension, every open axis is kept), the sweep order linearise()[:-1] with moves along path_from_to cuts "
+           "every edge of the tree exactly once (svd_sweep_cuts_every_edge, svd_sweep_events_along_edges, on the C17 "
+           "tree model), hence after the modelled sweep EVERY bond is <= max_bond_dim; what stays an INPUT of the "
+           "structural model: the new dimension of each event (a cut keeps <= max_bond_dim: keptDim_bounds; a QR move "
+           "does not exceed the dimension of the bond it crosses: contract of the reduced QR) and that the event list "
+           "of the real run is the modelled sweep (compared per run)",
            "value level: projector_matrix_value / projector_identity_value / projector_linear_value / "
            "recursive_truncation_value_telescope are about the flat-network semantics netValue with the inserted tensors "
            "P, Pc ARBITRARY; for P = U1.conj(), Pc = U1.T GIVEN the SVD contract in index form svd_projector_value proves "
            "that P.Pc is the projector onto the kept left singular vectors, Pi.M = sum over the kept triples, = M when "
            "nothing is discarded, and svd_projector_full_value that the network is then unchanged (U square or not); that "
            "the library's projector IS the U1 of numpy's SVD of that matricisation is checked per run, not proved; that "
-           "the contractions after the insertions (contract_all_children) leave the value unchanged (split_leaf_value read "
-           "backwards, C02) and that netValue is what the library's dense state is are checked per run on integer "
+           "the contractions after the insertions (contract_all_children) leave the value unchanged is proved for one child "
+           "bond GIVEN that the steps form a simulated history of the C02 simulation (truncate_node_value_partial: after "
+           "insert_identity, with ANY matrix Pi in place of the delta, every simulated history keeps the value of the "
+           "network with Pi on the bond; Pi = delta gives the original value), not yet along the whole truncateNode "
+           "recursion; that netValue is what the library's dense state is is checked per run on integer "
            "tensors (stream value), not proved; the norm of the single-step defect is bounded by "
            "single_projector_error / general_step_bound under their SVD / isometry hypotheses",
            "floating point: the model is exact; decisions closer than 1e-12 to a boundary are skipped unless "
